@@ -7,12 +7,12 @@ CHECKS = {
  "C12": dict(
   level="model_checking", design="6/C12", engine="sched",
   technique="stateless schedule exploration: preemption-bounded baton scheduler over real threads racing on the real lazycompile wrapper (stub + real Numba compilation), controlled dask scheduler enumerating task orders with bounded deviations, virtual prange (AST transform, one cooperative thread per row); exhaustive configuration product (chunkings x layouts x schedulers x thread counts)",
-  text="All interleavings at line granularity / preemption-bounded at bytecode granularity for 2-3 threads; dask task orders with <=1 (2) deviations for 17 accessor operations; all 32 (y,x) chunkings x 3 (6) layouts x 2 (7) schedulers; all 31 time chunkings (raise or equal eager); pixel permutations; thread counts 1..16; prange body interleavings with <=2 (3) preemptions. Oracle: eager / sequential result, bit-exact. The thread count a kernel asks for (numba.get_num_threads) is enumerated 1..6 on 1..7 rows in the virtualised source. Joint graphs: 15 operation pairs (two auxiliary inputs on one lazy cube; one call on two cubes) evaluated with dask.compute(a, b) and as a - b, 3 chunkings x 2 schedulers, each against its in-memory result.",
+  text="All interleavings at line granularity / preemption-bounded at bytecode granularity for 2-3 threads; dask task orders with <=1 (2) deviations for 17 accessor operations; all 32 (y,x) chunkings x 3 (6) layouts x 2 (7) schedulers; all 31 time chunkings (raise or equal eager); pixel permutations; thread counts 1..16; prange body interleavings with <=2 (3) preemptions. Oracle: eager / sequential result, bit-exact. The thread count a kernel asks for (numba.get_num_threads) is enumerated 1..6 on 1..7 rows in the virtualised source. Joint graphs: 15 operation pairs (two auxiliary inputs on one lazy cube; one call on two cubes) evaluated with dask.compute(a, b) and as a - b, 3 chunkings x 2 schedulers, each against its in-memory result. float32 cubes with scalar arguments float32 cannot represent; 26 joint pairs varying one input at a time; other ranks and extents (1-d, 2-d, 4-d, single pixel / row / column); three calls on one object with the input checked untouched.",
   note="Native-code interleavings (GIL-free gufunc loops, Numba threading layer) are not controllable from Python; configurations are enumerated there. The free-running lazy pass is sampling and reported as a supplement."),
  "C13": dict(
   level="translation_validation", design="6/C13", engine="sse-product",
   technique="bounded exhaustive differential execution of every discovered @njit/@guvectorize program (35) compiled vs its own source under CPython (numba types -> NumPy dtypes, callees compiled) on exhaustive word sets per dtype; SciPy special functions in nopython code vs scipy.special on log grids",
-  text="35 programs, ~40k (400k) input cases, 120k special-function evaluations; tolerances as stated in the property; selection ties decided by the C04/C05 reference. Every integer-typed program also over the whole range of its input dtypes (int16 / uint8 / uint16 / int32 / int64 extremes). Gaps also written as NaN / +inf / -inf; interpreter-only exceptions outside a white-list of benign run-time differences are disagreements.",
+  text="35 programs, ~40k (400k) input cases, 120k special-function evaluations; tolerances as stated in the property; selection ties decided by the C04/C05 reference. Every integer-typed program also over the whole range of its input dtypes (int16 / uint8 / uint16 / int32 / int64 extremes). Gaps also written as NaN / +inf / -inf; interpreter-only exceptions outside a white-list of benign run-time differences are disagreements. Nearly constant series of 8..200 values (reduction order).",
   note="An overflow under the interpreter is NumPy's warn-and-wrap value and is compared; inputs on which the interpreter raises a Python-level error compiled code cannot raise (math domain errors) are out-of-domain and counted; legacy ops/whit.py is excluded (not imported by the package)."),
  "C14": dict(
   level="exploration", design="6/C14", engine="sse-product",
@@ -22,17 +22,17 @@ CHECKS = {
  "C07": dict(
   level="exploration", design="6/C07", engine="sse-product",
   technique="bounded exhaustive enumeration of words over {ND,0,1,2,7,30} x all calibration windows x 4 kernel entry points + accessor, and a deterministic quantile-grid family, against an independent SciPy evaluation of the SPI definition with an interval for the fitted shape",
-  text="All words of length 3..6/7 with every window of >=2 steps, int16/float32/float64 inputs; shapes 0.05..500, scales 0.1..1e4, n<=400 with zeros and ties. Interval oracle: every integer between the rounded ends for alpha*(1+-1e-9) (float32: single-precision log bound). Accessor windows written with dates on the steps and strictly between steps; attribute histories of nodata on one object (depth 3). nodata given as argument (-9999 / 0 / 7) against every state of the attribute (absent / equal / conflicting), ungrouped and grouped.",
+  text="All words of length 3..6/7 with every window of >=2 steps, int16/float32/float64 inputs; shapes 0.05..500, scales 0.1..1e4, n<=400 with zeros and ties. Interval oracle: every integer between the rounded ends for alpha*(1+-1e-9) (float32: single-precision log bound). Accessor windows written with dates on the steps and strictly between steps; attribute histories of nodata on one object (depth 3). nodata given as argument (-9999 / 0 / 7) against every state of the attribute (absent / equal / conflicting), ungrouped and grouped. Two interleaved groups with all pairs of group-local windows; argument spellings (date types, nodata types).",
   note="Trusts scipy.special (digamma, gammainc, ndtri) and scipy.optimize.brentq as the reference; |SPI|>7000 left to C08."),
  "C08": dict(
   level="exploration", design="6/C08", engine="sse-product",
   technique="bounded exhaustive enumeration: words with negative / nodata letters (ordering inside each pixel), extremes ladders base*10^k for k=-300..6 over shapes 0.5..1e4, and every placement of every kind of unfittable pixel in a 2x2 cube x dtypes x grouped",
-  text="Non-decreasing indices, equal -> equal, nodata/negative -> nodata (and replacing negatives by nodata changes nothing), saturation instead of wrap, no exception, neighbours unaffected; dense ladders of 321 quantile levels (-6..6 sigma) with zero shares 0..0.8. Zero-share rule on pixels with invalid cells: z <= 40 zeros x k <= 20 nodata / negative cells x 3 arrangements x 4 entry points.",
+  text="Non-decreasing indices, equal -> equal, nodata/negative -> nodata (and replacing negatives by nodata changes nothing), saturation instead of wrap, no exception, neighbours unaffected; dense ladders of 321 quantile levels (-6..6 sigma) with zero shares 0..0.8. Zero-share rule on pixels with invalid cells: z <= 40 zeros x k <= 20 nodata / negative cells x 3 arrangements x 4 entry points. Marker independence: the same words with their missing cells written as -9999 / 0 / 7 / 255.",
   note="The saturation value itself is not pinned by the statement; only order preservation is demanded beyond the int16 range."),
  "C09": dict(
   level="exploration", design="6/C09", engine="sse-product",
   technique="bounded exhaustive enumeration of time axes (subsets of a 9-position lattice) x all begin/end dates on/between/before/after steps, and of set partitions x label spellings for groups; index reference + differential grouped vs per-group ungrouped path",
-  text="Window membership, attrs, ValueError for every invalid window and only those, grouped == per-group ungrouped, spelling invariance, single group == ungrouped, to_linspace / get_calibration_indices directly, 36 dekad groups; axes stamped at 10:30 with begin/end at three times of day; far-away sentinel dates (years 1..9999); call sequences in one process over 21 axes with equal extent. Influence oracle at the kernels: an observation outside the calibration window never influences the indices of other positions (every pixel x window x position, ungrouped and two groupings). Axes of 32767..40000 steps (one group == ungrouped, two groups == per-group, windows beyond position 32767).",
+  text="Window membership, attrs, ValueError for every invalid window and only those, grouped == per-group ungrouped, spelling invariance, single group == ungrouped, to_linspace / get_calibration_indices directly, 36 dekad groups; axes stamped at 10:30 with begin/end at three times of day; far-away sentinel dates (years 1..9999); call sequences in one process over 21 axes with equal extent. Influence oracle at the kernels: an observation outside the calibration window never influences the indices of other positions (every pixel x window x position, ungrouped and two groupings). Axes of 32767..40000 steps (one group == ungrouped, two groups == per-group, windows beyond position 32767). Every third window also on the dask-backed cube; argument spellings (date types, label containers).",
   note="Axes of 5 steps (quick) / 3..6 steps (thorough) for windows; 6..7 (9) steps for groups."),
  "C10": dict(
   level="model_checking", design="6/C10", engine="sse-trie",
@@ -42,32 +42,32 @@ CHECKS = {
  "C11": dict(
   level="model_checking", design="6/C11", engine="calendar",
   technique="complete enumeration of the finite state space: all 3,652,059 days and 359,964 dekads with successor transitions, every clause of the statement evaluated in every state; accessor vs scalar class element-wise",
-  text="Not bounded: the whole calendar 0001..9999 is explored in every run (quick and thorough). Accessor on every axis that is a subset of <= 4 (5) instants of a 13-instant lattice over four dekads, three orders.",
+  text="Not bounded: the whole calendar 0001..9999 is explored in every run (quick and thorough). Accessor on every axis that is a subset of <= 4 (5) instants of a 13-instant lattice over four dekads, three orders. Microsecond axes: the first and last two microseconds of every dekad of 19 years over 0001..9998.",
   note="Reference = datetime / calendar from the standard library."),
  "C15": dict(
   level="model_checking", design="6/C15", engine="sse-trie",
   technique="explicit-state exploration of the input trie over {ND,a,b,c} (length 3..9/10) with a streaming exact-integer reference (ten running sums), int/nodata vs float/NaN, (y,x,t) vs (t,y,x), affine invariance, accessor numpy/dask; 900-step outage family",
-  text="All 349k (1.4M) words; value, range [-1,1], encodings, layouts, affine maps; large-offset alphabet (30000+{0,1,5}); nearly flat plateaus n=30..900; nodata=0 attribute. Words over decimal fractions (float64 / float32) and records flat after their first sample up to 900 steps; attribute histories of nodata on one object, both layouts. Plateau records that start with missing cells.",
+  text="All 349k (1.4M) words; value, range [-1,1], encodings, layouts, affine maps; large-offset alphabet (30000+{0,1,5}); nearly flat plateaus n=30..900; nodata=0 attribute. Words over decimal fractions (float64 / float32) and records flat after their first sample up to 900 steps; attribute histories of nodata on one object, both layouts. Plateau records that start with missing cells. First valid sample far from the plateau.",
   note="Tolerance 2e-6 absolute (float32 outputs). Float data with decimal fractions: 2e-5 (rounding residue of the single-pass sums), finite and within [-1,1] required."),
  "C16": dict(
   level="exploration", design="6/C16", engine="sse-product",
   technique="bounded exhaustive enumeration of zone x value assignments for rasters of 1..5/6 pixels x num_zones x dtype, boundary zone sizes 2^24-1, 2^24, 2^24+2, 25M, 1000 zones, all 720 pixel permutations, accessor numpy/dask",
-  text="Exact mean (2 ulp of output dtype) and exact count, NaN/0 for empty zones, zone-nodata pixels excluded, rearrangement invariance; zone rasters of every integer dtype with fill values outside int16. Attribute histories of nodata on the value cube and on the zone raster (depth 3). Value rasters of eight dtypes over their whole range; five zone rasters on one lazy cube evaluated in one graph (joint_zones).",
+  text="Exact mean (2 ulp of output dtype) and exact count, NaN/0 for empty zones, zone-nodata pixels excluded, rearrangement invariance; zone rasters of every integer dtype with fill values outside int16. Attribute histories of nodata on the value cube and on the zone raster (depth 3). Value rasters of eight dtypes over their whole range; five zone rasters on one lazy cube evaluated in one graph (joint_zones). nodata markers that float32 cannot represent, at the kernel and through the accessor; argument spellings.",
   note="Large zones use integer-valued pixels (exact float64 sums)."),
  "C18": dict(
   level="model_checking", design="6/C18", engine="sse-trie",
   technique="explicit-state exploration of the binary input trie (length 1..16/18) with a run-length automaton and edge relations; long-run family beyond 255 / 65535; non-binary alphabet; croo under all permutations of the stored time order",
-  text="All 131070 binary words, runs up to 1000 (70000), all 720 stored orders for words up to length 6, time axes before / across 1970, one object relabelled in place through all 120 orders. croo on cubes of 257..1000 steps holding every combination of current run length x isolated 1 at 64..768 steps back, three storage orders, numpy and dask. lroo through the accessor on 3 900 small cubes (every word alone, pairs, triples) in four layouts incl. views and dask.",
+  text="All 131070 binary words, runs up to 1000 (70000), all 720 stored orders for words up to length 6, time axes before / across 1970, one object relabelled in place through all 120 orders. croo on cubes of 257..1000 steps holding every combination of current run length x isolated 1 at 64..768 steps back, three storage orders, numpy and dask. lroo through the accessor on 3 900 small cubes (every word alone, pairs, triples) in four layouts incl. views and dask. croo_long also runs every pixel as a cube of its own and the cube without its long runs.",
   note="croo is only claimed for binary series (the property's quantifier)."),
  "C19": dict(
   level="model_checking", design="6/C19", engine="sse-trie",
   technique="exhaustive exploration of the generator: axis length 1..8/12 x n x begin x end x lookup method x reducer x dim kind, every next() compared with the reference window list; off-axis labels must raise ValueError",
-  text="Every configuration inside the bound, time and numeric dims (incl. fractional labels on integer axes), NaN data; int16 / int32 / uint8 / bool / float32 cubes. Every placement of one or two NaN positions x every on-axis begin / end x n x sum / mean on both dimension kinds.",
+  text="Every configuration inside the bound, time and numeric dims (incl. fractional labels on integer axes), NaN data; int16 / int32 / uint8 / bool / float32 cubes. Every placement of one or two NaN positions x every on-axis begin / end x n x sum / mean on both dimension kinds. Every history of <= 3 steps over five calls along two dimensions and an in-place relabel on one object; argument spellings.",
   note="Lookup methods follow pandas get_indexer semantics; nearest ties accept either neighbour."),
  "C20": dict(
   level="exploration", design="6/C20", engine="sse-product",
   technique="bounded exhaustive enumeration of templates (n obs 2..4/5, gaps 0..3, head/tail) x all contiguous labelings x value words; reference curve at lambda=1e-5 (refined float, cross-checked with rationals), period means, tie band; inputs unmodified; accessor; long regular families",
-  text="158 templates x 2^(L-1) labelings (increasing, descending and zig-zag label ids) x value words; lines in day number give exact period means. Template stored as bool / uint8 / int8 / int16 / int32 / int64 / float32 / float64 with sparse irregular marks.",
+  text="158 templates x 2^(L-1) labelings (increasing, descending and zig-zag label ids) x value words; lines in day number give exact period means. Template stored as bool / uint8 / int8 / int16 / int32 / int64 / float32 / float64 with sparse irregular marks. Five requests (labelings / templates) on one lazy cube evaluated in one graph; argument spellings.",
   note="Either neighbour accepted within 1e-6 of a rounding tie."),
  "C01": dict(
   level="exploration", design="6/C01", engine="sse-product",
@@ -77,32 +77,32 @@ CHECKS = {
  "C02": dict(
   level="exploration", design="6/C02", engine="sse-product",
   technique="bounded exhaustive differential exploration: every word over {ND,lo,mid,hi} (len 4..7/8) x 6 placeholder encodings x 8 smoother variants x parameter grid, compared bit-exactly across encodings; gap-fill via self-consistency with the fixed-lambda smoother and the C03 reference",
-  text="All 21760 (87296) words, 40 variant/parameter points, seven encodings of the missing cells (nodata below / inside / above the data, 0, NaN, +inf, -inf), kernels and accessors (also nodata=0 against a conflicting attribute); the fourth difference of every band must vanish at missing cells; complete inside the bound.",
+  text="All 21760 (87296) words, 40 variant/parameter points, seven encodings of the missing cells (nodata below / inside / above the data, 0, NaN, +inf, -inf), kernels and accessors (also nodata=0 against a conflicting attribute); the fourth difference of every band must vanish at missing cells; complete inside the bound. Gaps of one series marked in two ways at once (marker and NaN / +inf alternately).",
   note="Bit-exact equality across encodings is demanded (zero weight annihilates the placeholder exactly). Bound: length <= 7/8, three data letters."),
  "C03": dict(
   level="exploration", design="6/C03", engine="sse-product",
   technique="bounded exhaustive enumeration of words x lambda x p against a reference PLS / 10-pass asymmetric reweighting built from the definition (float64 + long-double refinement, cross-checked with exact rationals), rounding with tie guard band",
-  text="Every word with >=2 valid cells x 6 lambdas x {none,4 p}; whits(s=), whits(sg=raster incl. -inf, also handed over transposed), p incl. 0.5, six dimension orders; deterministic long series n=50..400 incl. series that have not converged after 10 reweighting passes.",
+  text="Every word with >=2 valid cells x 6 lambdas x {none,4 p}; whits(s=), whits(sg=raster incl. -inf, also handed over transposed), p incl. 0.5, six dimension orders; deterministic long series n=50..400 incl. series that have not converged after 10 reweighting passes. Argument spellings (s, nodata, sg given with other types / layouts).",
   note="Either neighbour accepted within 1e-5 of a rounding tie; curves leaving int16 excluded (none in scope)."),
  "C04": dict(
   level="exploration", design="6/C04", engine="sse-product",
   technique="bounded exhaustive enumeration of words x uniformly spaced sranges x p x lc; V-curve recomputed from its definition with condition-number error bounds (admissible arg-min sets), bit-exact self-consistency with the fixed-lambda smoother, grid choice differential",
-  text="Structure, optimality (asymmetric: union of three readings), bit-exact self-consistency, float32 sgrid and lc grid choice on all words of length 5..7/8 and 12/96 sranges, p in {none,.1,.5,.9}; long series n=50..400 (optimality, and self-consistency with extreme p where the reweighting does not converge); lc rasters matched by name.",
+  text="Structure, optimality (asymmetric: union of three readings), bit-exact self-consistency, float32 sgrid and lc grid choice on all words of length 5..7/8 and 12/96 sranges, p in {none,.1,.5,.9}; long series n=50..400 (optimality, and self-consistency with extreme p where the reweighting does not converge); lc rasters matched by name. Argument spellings (srange dtypes and views, nodata types).",
   note="Admissible set derived from reference quantities only; ambiguous (tied / degenerate) cases are counted in the evidence."),
  "C05": dict(
   level="exploration", design="6/C05", engine="sse-product",
   technique="bounded exhaustive enumeration of words (>=5 valid), flat-with-spikes {0,5,50}^8, constants and lines with all gap patterns x sranges x robust x p; GCV arg-min under two trace definitions with error bounds; robust mode checked on what the statement fixes",
-  text="Non-robust: grid membership, arg-min admissibility, band = fixed smoother at lopt. Robust: grid membership, lines/constants reproduced, band straddles the data (sum w(y-z)=0 necessary condition), sanity bound. All variants: optimality (KKT) conditions of a weighted Whittaker curve at the reported lambda; long series n=50..200; accessor defaults incl. p=0.5.",
+  text="Non-robust: grid membership, arg-min admissibility, band = fixed smoother at lopt. Robust: grid membership, lines/constants reproduced, band straddles the data (sum w(y-z)=0 necessary condition), sanity bound. All variants: optimality (KKT) conditions of a weighted Whittaker curve at the reported lambda; long series n=50..200; accessor defaults incl. p=0.5. Argument spellings (srange dtypes and views, robust as np.bool_, defaults spelled out).",
   note="Robust constants (4.685, 1.4826, passes) are not pinned; placeholder invariance of robust mode is decided in C02."),
  "C06": dict(
   level="exploration", design="6/C06", engine="sse-product",
   technique="bounded exhaustive metamorphic exploration: every line x gap pattern, every word x 5 offsets, every word reversed, through all 8 variants and their parameter grids; ties decided from reference margins",
-  text="Lines reproduced exactly; offsets and reversal (copy and strided view) commute except at reference-decided rounding / criterion ties. 6 listed inputs of the robust variants are known findings.",
+  text="Lines reproduced exactly; offsets and reversal (copy and strided view) commute except at reference-decided rounding / criterion ties. 6 listed inputs of the robust variants are known findings. Cold start of the lambda sweep: all words of length 8, grid 0..3, p 0.9 / 0.95, offsets -5000 / 3000 / 5000.",
   note="Robust variants: a different lambda is tolerated only when the bands agree; their alphabet is seed-independent because of the listed findings."),
  "C17": dict(
   level="model_checking", design="6/C17", engine="sse-trie",
   technique="explicit-state exploration of the input trie (every word over {ND,4 letters} to length 7/8, every window) with a sliding-window reference automaton stepped on every edge, run against the compiled kernel and the accessor",
-  text="Every word over a 5-symbol alphabet up to the length bound, every window size, three nodata renderings and four dtypes is executed on the real kernel and compared with a reference automaton; the causality edge relation is checked on every trie transition; mean_grp over every surjective labeling. Complete inside the bound; longer series only through a deterministic family. 1000-step records at levels 26000 / 100000 (record total beyond 2^24, every window sum exact); attribute histories of nodata on one object for rolling.sum and mean_grp. Records of 32767..70000 steps for mean_grp and rolling_sum.",
+  text="Every word over a 5-symbol alphabet up to the length bound, every window size, three nodata renderings and four dtypes is executed on the real kernel and compared with a reference automaton; the causality edge relation is checked on every trie transition; mean_grp over every surjective labeling. Complete inside the bound; longer series only through a deterministic family. 1000-step records at levels 26000 / 100000 (record total beyond 2^24, every window sum exact); attribute histories of nodata on one object for rolling.sum and mean_grp. Records of 32767..70000 steps for mean_grp and rolling_sum. Markers reachable by partial sums of the alphabet; argument spellings.",
   note="Trusts NumPy integer arithmetic for the reference sums; bound: length <= 7 (quick) / 8 (thorough), 4 letters + nodata."),
 }
 
